@@ -213,14 +213,14 @@ Lemma enum_from_map_snd {A B} (g : A -> B) (l : list A) k :
   map (fun x => g (snd x)) (enum_from k l) = map g l.
 Proof. revert k. induction l as [|y l IH]; intros k; simpl; [reflexivity|]. now rewrite IH. Qed.
 
-Lemma folder_files_snd a k : map snd (folder_files a k) = map snd (folder_members a k).
+Lemma folder_files_snd nm a k : map snd (folder_files nm a k) = map snd (folder_members a k).
 Proof.
-  unfold folder_files. destruct (folder_members a k) as [|[off e0] r] eqn:E; [reflexivity|].
+  unfold folder_files. destruct nm; [reflexivity|]. destruct (folder_members a k) as [|[off e0] r] eqn:E; [reflexivity|].
   rewrite map_map. unfold enumerate. simpl. f_equal. apply (enum_from_map_snd snd).
 Qed.
 
-Lemma ids_consistent_files a k :
-  ids_consistent a -> 1 < numfolders a -> k < numfolders a -> folder_files a k = folder_members a k.
+Lemma ids_consistent_files nm a k :
+  ids_consistent nm a -> 1 < numfolders a -> k < numfolders a -> folder_files nm a k = folder_members a k.
 Proof.
   unfold ids_consistent, ids_consistentb. intros H Hn Hk.
   apply orb_true_iff in H. destruct H as [H|H]; [apply Nat.leb_le in H; lia|].
@@ -266,8 +266,8 @@ Proof.
   destruct (p (ename (snd m))); [discriminate|reflexivity].
 Qed.
 
-Theorem worker_spec a p :
-  ids_consistent a -> worker a (reg_of a p) = filter (fun x => p (fst x)) (all_members a).
+Theorem worker_spec nm a p :
+  ids_consistent nm a -> worker nm a (reg_of a p) = filter (fun x => p (fst x)) (all_members a).
 Proof.
   intros Hc. unfold worker, all_members, worker_order.
   destruct (numfolders a =? 0) eqn:E0.
@@ -277,15 +277,15 @@ Proof.
   apply Nat.eqb_neq in E0, E1. unfold canon. rewrite flat_map_app, filter_app. f_equal.
   { apply extract_single_good; [apply good_filter, good_all_files|apply empties_stream]. }
   rewrite flat_map_flat_map, filter_flat_map. apply flat_map_ext_in. intros k Hk. apply in_seq in Hk.
-  rewrite (ids_consistent_files a k Hc) by lia.
+  rewrite (ids_consistent_files nm a k Hc) by lia.
   assert (Hg : good a (folder_members a k)) by apply good_filter, good_all_files.
   destruct (existsb _ (folder_members a k)) eqn:Ex.
   - now apply extract_single_good.
   - symmetry. now apply (filter_canon_none a p).
 Qed.
 
-Theorem run_spec m a p : ids_consistent a -> run m a p = spec_run m a p.
-Proof. intros Hc. unfold run, spec_run. now rewrite (worker_spec a p Hc). Qed.
+Theorem run_spec nm m a p : ids_consistent nm a -> run nm m a p = spec_run m a p.
+Proof. intros Hc. unfold run, spec_run. now rewrite (worker_spec nm a p Hc). Qed.
 
 (* ---- unconditional: selective extraction is the restriction of what extractall delivers,
    whatever the numbering does *)
@@ -332,8 +332,8 @@ Proof.
   destruct (existsb _ fs) eqn:E; [reflexivity|]. symmetry. now apply extract_single_none.
 Qed.
 
-Theorem worker_restrict a p :
-  worker a (reg_of a p) = filter (fun x => p (fst x)) (worker a (reg_of a all_true)).
+Theorem worker_restrict nm a p :
+  worker nm a (reg_of a p) = filter (fun x => p (fst x)) (worker nm a (reg_of a all_true)).
 Proof.
   unfold worker.
   destruct (numfolders a =? 0); [apply extract_single_rel|].
@@ -437,7 +437,7 @@ Proof.
 Qed.
 
 (* ---- dependence on the selection only through the member names ------------------------------ *)
-Lemma worker_ext a reg reg' : (forall id, reg id = reg' id) -> worker a reg = worker a reg'.
+Lemma worker_ext nm a reg reg' : (forall id, reg id = reg' id) -> worker nm a reg = worker nm a reg'.
 Proof.
   intros H.
   assert (Hs : forall stream ms, extract_single reg stream ms = extract_single reg' stream ms).
@@ -447,15 +447,15 @@ Proof.
   unfold worker. rewrite !Hs.
   destruct (numfolders a =? 0); [reflexivity|]. destruct (numfolders a =? 1); [reflexivity|].
   f_equal. apply flat_map_ext. intros k. rewrite Hs.
-  replace (existsb (fun m => is_some (reg' (fst m))) (folder_files a k))
-    with (existsb (fun m => is_some (reg (fst m))) (folder_files a k)); [reflexivity|].
-  induction (folder_files a k) as [|m ms IH]; simpl; [reflexivity|]. now rewrite IH, H.
+  replace (existsb (fun m => is_some (reg' (fst m))) (folder_files nm a k))
+    with (existsb (fun m => is_some (reg (fst m))) (folder_files nm a k)); [reflexivity|].
+  induction (folder_files nm a k) as [|m ms IH]; simpl; [reflexivity|]. now rewrite IH, H.
 Qed.
 
-Theorem run_ext m a p q : (forall n, In n (names a) -> p n = q n) -> run m a p = run m a q.
+Theorem run_ext nm m a p q : (forall n, In n (names a) -> p n = q n) -> run nm m a p = run nm m a q.
 Proof.
   intros H. unfold run.
-  assert (Hw : worker a (reg_of a p) = worker a (reg_of a q)).
+  assert (Hw : worker nm a (reg_of a p) = worker nm a (reg_of a q)).
   { apply worker_ext. intros id. unfold reg_of. destruct (nth_error a id) as [e|] eqn:E; [|reflexivity].
     rewrite (H (ename e)); [reflexivity|]. apply in_map, (nth_error_In _ _ E). }
   rewrite Hw. destruct m; [|reflexivity]. f_equal. f_equal. f_equal.
@@ -525,45 +525,45 @@ Proof. induction l as [|x l IH]; simpl; [reflexivity|]. now rewrite IH. Qed.
 
 (* selective extraction = restriction of full extraction (whole result, directories included),
    and full extraction = every non-directory member with its own bytes *)
-Theorem extract_restrict_full m a T recursive :
-  wf_archive a -> ids_consistent a -> targets_prefix_ok a T ->
-  impl_extract m a T recursive = spec_run m a (spec_sel T recursive)
-  /\ impl_extract_all m a = spec_run m a all_true.
+Theorem extract_restrict_full nm m a T recursive :
+  wf_archive a -> ids_consistent nm a -> targets_prefix_ok a T ->
+  impl_extract nm m a T recursive = spec_run m a (spec_sel T recursive)
+  /\ impl_extract_all nm m a = spec_run m a all_true.
 Proof.
   intros _ Hc HT. unfold impl_extract, impl_extract_all. rewrite !run_spec by exact Hc. split; [|reflexivity].
   apply spec_run_ext. intros n Hn. now apply (sel_spec_agree a).
 Qed.
 
-Theorem extract_restrict m a T recursive :
-  wf_archive a -> ids_consistent a -> targets_prefix_ok a T ->
-  delivered (impl_extract m a T recursive)
-  = filter (fun x => spec_sel T recursive (fst x)) (delivered (impl_extract_all m a))
-  /\ delivered (impl_extract_all m a) = all_members a.
+Theorem extract_restrict nm m a T recursive :
+  wf_archive a -> ids_consistent nm a -> targets_prefix_ok a T ->
+  delivered (impl_extract nm m a T recursive)
+  = filter (fun x => spec_sel T recursive (fst x)) (delivered (impl_extract_all nm m a))
+  /\ delivered (impl_extract_all nm m a) = all_members a.
 Proof.
-  intros Hw Hc HT. destruct (extract_restrict_full m a T recursive Hw Hc HT) as [H1 H2].
+  intros Hw Hc HT. destruct (extract_restrict_full nm m a T recursive Hw Hc HT) as [H1 H2].
   rewrite H1, H2. simpl. rewrite (filter_all_true (all_members a)). split; reflexivity.
 Qed.
 
 (* the form of the property for member-name targets *)
-Corollary extract_restrict_members m a T recursive :
-  wf_archive a -> prefix_free_names a -> ids_consistent a ->
+Corollary extract_restrict_members nm m a T recursive :
+  wf_archive a -> prefix_free_names a -> ids_consistent nm a ->
   (forall t, In t T -> In (remove_trailing_slash t) (names a)
                        \/ (forall n, In n (names a) -> startswith n (remove_trailing_slash t) = false)) ->
-  delivered (impl_extract m a T recursive)
-  = filter (fun x => spec_sel T recursive (fst x)) (delivered (impl_extract_all m a))
-  /\ delivered (impl_extract_all m a) = all_members a.
+  delivered (impl_extract nm m a T recursive)
+  = filter (fun x => spec_sel T recursive (fst x)) (delivered (impl_extract_all nm m a))
+  /\ delivered (impl_extract_all nm m a) = all_members a.
 Proof. intros Hw Hpf Hc HT. apply extract_restrict; auto. now apply member_targets_prefix_ok. Qed.
 
 (* what holds with no hypothesis at all (in particular in the defective multi-folder layout) *)
-Theorem extract_restrict_relative m a T recursive :
-  delivered (impl_extract m a T recursive)
-  = filter (fun x => sel T recursive (fst x)) (delivered (impl_extract_all m a)).
+Theorem extract_restrict_relative nm m a T recursive :
+  delivered (impl_extract nm m a T recursive)
+  = filter (fun x => sel T recursive (fst x)) (delivered (impl_extract_all nm m a)).
 Proof. unfold impl_extract, impl_extract_all, run. simpl. apply worker_restrict. Qed.
 
-Theorem absent_ignored m a t T recursive :
+Theorem absent_ignored nm m a t T recursive :
   ~ In (remove_trailing_slash t) (names a) ->
   (recursive = true -> forall n, In n (names a) -> startswith n (remove_trailing_slash t) = false) ->
-  impl_extract m a (t :: T) recursive = impl_extract m a T recursive.
+  impl_extract nm m a (t :: T) recursive = impl_extract nm m a T recursive.
 Proof.
   intros Hab Hrec. unfold impl_extract. apply run_ext. intros n Hn. unfold sel. simpl.
   assert (He : str_eqb n (remove_trailing_slash t) = false).
@@ -571,16 +571,16 @@ Proof.
   rewrite He. simpl. destruct recursive; [|reflexivity]. now rewrite (Hrec eq_refl n Hn).
 Qed.
 
-Theorem trailing_slash_immaterial m a T1 t T2 recursive :
+Theorem trailing_slash_immaterial nm m a T1 t T2 recursive :
   remove_trailing_slash t = t ->      (* t itself carries no trailing slash *)
-  impl_extract m a (T1 ++ (t ++ [47%Z]) :: T2) recursive = impl_extract m a (T1 ++ t :: T2) recursive.
+  impl_extract nm m a (T1 ++ (t ++ [47%Z]) :: T2) recursive = impl_extract nm m a (T1 ++ t :: T2) recursive.
 Proof.
   intros Ht. unfold impl_extract. apply run_ext. intros n _. apply sel_same_norm.
   unfold targets_norm. rewrite !map_app. simpl. now rewrite rts_app_slash, Ht.
 Qed.
 
-Theorem targets_as_set m a T T' recursive :
-  (forall x, In x T <-> In x T') -> impl_extract m a T recursive = impl_extract m a T' recursive.
+Theorem targets_as_set nm m a T T' recursive :
+  (forall x, In x T <-> In x T') -> impl_extract nm m a T recursive = impl_extract nm m a T' recursive.
 Proof. intros H. unfold impl_extract. apply run_ext. intros n _. now apply sel_same_elements. Qed.
 
 (* directories *)
@@ -595,13 +595,13 @@ Proof.
     + apply in_seq. rewrite app_length. destruct d; [congruence|simpl; lia].
 Qed.
 
-Theorem only_parents_created a p d :
-  ids_consistent a ->
-  (In d (dirs_created (run true a p)) <->
+Theorem only_parents_created nm a p d :
+  ids_consistent nm a ->
+  (In d (dirs_created (run nm true a p)) <->
    d <> [] /\ exists e rest, In e a /\ p (ename e) = true /\ comps (ename e) = d ++ rest
                             /\ (is_dir e = true \/ rest <> [])).
 Proof.
-  intros Hc. rewrite (run_spec true a p Hc). unfold dirs_created, spec_run. simpl.
+  intros Hc. rewrite (run_spec nm true a p Hc). unfold dirs_created, spec_run. simpl.
   rewrite in_flat_map. split.
   - intros (q & Hq & Hd). apply In_mkdir_p in Hd. destruct Hd as (Hne & rest & ->).
     split; [exact Hne|]. apply in_app_or in Hq. destruct Hq as [Hq|Hq].
@@ -629,7 +629,7 @@ Proof.
         rewrite Hcomps. now apply removelast_app.
 Qed.
 
-Theorem factory_creates_no_directories a p : dirs_created (run false a p) = [].
+Theorem factory_creates_no_directories nm a p : dirs_created (run nm false a p) = [].
 Proof. reflexivity. Qed.
 
 (* ---- witnesses -------------------------------------------------------------------------------- *)
@@ -653,10 +653,10 @@ Definition witness_healthy : archive :=
 
 Theorem extract_restrict_multifolder_refuted :
   exists a T, wf_archive a /\ prefix_free_names a /\ (forall t, In t T -> In t (names a)) /\
-    ~ ids_consistent a /\
-    delivered (impl_extract false a T false)
+    ~ ids_consistent false a /\
+    delivered (impl_extract false false a T false)
       <> filter (fun x => spec_sel T false (fst x)) (all_members a) /\
-    delivered (impl_extract_all false a) <> all_members a.
+    delivered (impl_extract_all false false a) <> all_members a.
 Proof.
   exists witness_defect, [wD3].
   split; [reflexivity|]. split; [reflexivity|]. split.
@@ -668,8 +668,8 @@ Qed.
 (* the concrete behaviour in that layout: the member named in T is not delivered at all, and
    extractall delivers the third member's bytes under the second member's name *)
 Theorem multifolder_defect_behaviour :
-  delivered (impl_extract false witness_defect [wD3] false) = [] /\
-  delivered (impl_extract_all false witness_defect)
+  delivered (impl_extract false false witness_defect [wD3] false) = [] /\
+  delivered (impl_extract_all false false witness_defect)
   = [(wA, [1; 1; 1; 1]%Z); (wB, [2; 2]%Z); (wD1, [3; 3; 3; 3]%Z); (wD2, [5; 5; 5]%Z)] /\
   all_members witness_defect
   = [(wA, [1; 1; 1; 1]%Z); (wB, [2; 2]%Z); (wD1, [3; 3; 3; 3]%Z); (wD2, [4; 4; 4; 4; 4; 4]%Z);
@@ -678,7 +678,7 @@ Proof. repeat split. Qed.
 
 (* the hypotheses of extract_restrict are met by a two-folder archive with a directory entry *)
 Theorem healthy_witness_hypotheses :
-  wf_archive witness_healthy /\ prefix_free_names witness_healthy /\ ids_consistent witness_healthy /\
+  wf_archive witness_healthy /\ prefix_free_names witness_healthy /\ ids_consistent false witness_healthy /\
   targets_prefix_ok witness_healthy [wD3; wE ++ [47%Z]] /\ numfolders witness_healthy = 2.
 Proof. repeat split. Qed.
 
@@ -689,7 +689,7 @@ Definition wSu : str := [115; 117]%Z.                   (* "su" *)
 Theorem absent_ignored_refuted :
   exists a t T, wf_archive a /\ prefix_free_names a /\ ~ In (remove_trailing_slash t) (names a) /\
     (forall n, In n (names a) -> startswith n (remove_trailing_slash t ++ [47%Z]) = false) /\
-    delivered (impl_extract false a (t :: T) true) <> delivered (impl_extract false a T true).
+    delivered (impl_extract false false a (t :: T) true) <> delivered (impl_extract false false a T true).
 Proof.
   exists [mkEntry wSubX (KData 0 [7%Z])], wSu, [].
   split; [reflexivity|]. split; [reflexivity|]. split.
@@ -701,7 +701,7 @@ Qed.
 
 (* single-folder archives (any number of members, any interleaving of empty entries) always
    satisfy the numbering hypothesis: the worker iterates self.files itself *)
-Theorem ids_consistent_single a : numfolders a <= 1 -> ids_consistent a.
+Theorem ids_consistent_single nm a : numfolders a <= 1 -> ids_consistent nm a.
 Proof. intros H. unfold ids_consistent, ids_consistentb. apply Nat.leb_le in H. now rewrite H. Qed.
 
 (* a single-folder solid archive with a directory, an empty file, nested names *)
@@ -714,17 +714,32 @@ Definition witness_single : archive :=
 
 Theorem single_witness_behaviour :
   wf_archive witness_single /\ prefix_free_names witness_single /\ numfolders witness_single = 1 /\
-  impl_extract true witness_single [wDir ++ [47%Z]; wB] true
+  impl_extract false true witness_single [wDir ++ [47%Z]; wB] true
   = mkR [(wNested, [2; 2]%Z); (wB, [3]%Z)] [[wDir]; [wDir; [100%Z]]; []] /\
-  dirs_created (impl_extract true witness_single [wDir ++ [47%Z]; wB] true)
+  dirs_created (impl_extract false true witness_single [wDir ++ [47%Z]; wB] true)
   = [[wDir]; [wDir]; [wDir; [100%Z]]].
 Proof. repeat split. Qed.
 
 Theorem absent_ignored_example :
   ~ In (remove_trailing_slash [113%Z]) (names witness_single) /\
   (forall n, In n (names witness_single) -> startswith n (remove_trailing_slash [113%Z]) = false) /\
-  impl_extract true witness_single [[113%Z]; wB] true = impl_extract true witness_single [wB] true.
+  impl_extract false true witness_single [[113%Z]; wB] true = impl_extract false true witness_single [wB] true.
 Proof.
   split; [vm_compute; intuition discriminate|]. split; [|reflexivity].
   intros n Hn. vm_compute in Hn. intuition (subst; reflexivity).
 Qed.
+
+(* with the repaired numbering the hypothesis holds of every archive *)
+Theorem ids_consistent_stored a : ids_consistent true a.
+Proof.
+  unfold ids_consistent, ids_consistentb. apply orb_true_iff. right. apply forallb_forall.
+  intros k _. unfold folder_files. generalize (map fst (folder_members a k)).
+  induction l as [|x l IH]; simpl; [reflexivity|]. now rewrite Nat.eqb_refl.
+Qed.
+
+Theorem extract_restrict_stored m a T recursive :
+  wf_archive a -> targets_prefix_ok a T ->
+  delivered (impl_extract true m a T recursive)
+  = filter (fun x => spec_sel T recursive (fst x)) (delivered (impl_extract_all true m a))
+  /\ delivered (impl_extract_all true m a) = all_members a.
+Proof. intros Hw HT. apply extract_restrict; auto. apply ids_consistent_stored. Qed.
